@@ -34,9 +34,13 @@ func c12Timeouts(r *verdict.Run) {
 	defer can.close()
 	// a canary loop records the worst response time during the whole window
 	stop := make(chan struct{})
+	loopDone := make(chan struct{})
+	// (the loop has ended before the canary's connection is closed and the child stopped, whichever way this function returns)
+	defer func() { close(stop); <-loopDone }()
 	var worst time.Duration
 	var cmu sync.Mutex
 	go func() {
+		defer close(loopDone)
 		for {
 			select {
 			case <-stop:
@@ -225,7 +229,6 @@ func c12Timeouts(r *verdict.Run) {
 		}
 	}
 	wg.Wait()
-	close(stop)
 }
 
 // ---- 2. CLIENT UNBLOCK ------------------------------------------------------------------
